@@ -813,10 +813,15 @@ def gwb_grid(P, rep, widths, rule="LAYOUT.L4.grid"):
     # the 3-component data set is recognised by `d == <slot of velocity>`
     three = []
     for n in FV.walk():
-        if n.get("k") == "BinaryOperator" and n.get("op") == "==" and sc(n["c"][1]).get("k") == "IntegerLiteral":
-            l = sc(n["c"][0])
-            if l.get("k") == "DeclRefExpr" and P.d(l["r"]).get("n") == "d":
-                three.append((n, sc(n["c"][1])["v"]))
+        if n.get("k") == "BinaryOperator" and n.get("op") == "==":
+            l, r_ = sc(n["c"][0]), sc(n["c"][1])
+            # the slot as a literal or as a named constant initialised with one
+            if r_.get("k") == "DeclRefExpr":
+                ini_ = next((sc(v_["c"][0]) for v_ in FV.walk() if v_.get("k") == "VarDecl" and v_.get("r") == r_["r"] and v_.get("c")), None)
+                if ini_ is not None and ini_.get("k") == "IntegerLiteral" and "const" in (P.d(r_["r"]).get("t") or ""):
+                    r_ = ini_
+            if r_.get("k") == "IntegerLiteral" and l.get("k") == "DeclRefExpr" and P.d(l["r"]).get("n") == "d":
+                three.append((n, r_["v"]))
     if not three:
         rep.unknown(rule, "filter_vtu_mesh: no `d == k` test for the vector data set")
     for n, v in three:
@@ -1038,7 +1043,20 @@ def filter_copy(P, rep, rule="FILTER"):
         else:
             w = sc(inner[1]).get("v")
             nm = P.d(inner[0]).get("n")
-            if idx not in ("((src_vid*%s)+%s)" % (w, nm), "(%s+(src_vid*%s))" % (nm, w), "((%s*src_vid)+%s)" % (w, nm)) or w != 3:
+            if w is None:
+                # the number of components is a named quantity: (d == <vector slot>) ? 3 : 1, one loop for every data set
+                wn = sc(inner[1])
+                wi = None
+                if wn.get("k") == "DeclRefExpr":
+                    wi = next((sc(v_["c"][0]) for v_ in F.walk() if v_.get("k") == "VarDecl" and v_.get("r") == wn["r"] and v_.get("c")), None)
+                    wname = wn.get("n")
+                if wi is not None and wi.get("k") == "ConditionalOperator" and sc(wi["c"][1]).get("v") == 3 and sc(wi["c"][2]).get("v") == 1 \
+                        and sc(wi["c"][0]).get("k") == "BinaryOperator" and sc(wi["c"][0]).get("op") == "==" and any(astq.is_ref_to(sc(z), iv) for z in sc(wi["c"][0])["c"]):
+                    if idx not in ("((src_vid*%s)+%s)" % (wname, nm), "(%s+(src_vid*%s))" % (nm, wname), "((%s*src_vid)+%s)" % (wname, nm)):
+                        problems.append("data sets copied from index %s with %s components" % (idx, wname))
+                else:
+                    rep.unknown(rule, "filter_vtu_mesh: component loop bound `%s` is neither a literal nor (d == k) ? 3 : 1" % R(inner[1])[:60])
+            elif idx not in ("((src_vid*%s)+%s)" % (w, nm), "(%s+(src_vid*%s))" % (nm, w), "((%s*src_vid)+%s)" % (w, nm)) or w != 3:
                 problems.append("vector data set copied from index %s with %s components" % (idx, w))
     if len(dloops) > 1:
         problems.append("data sets are copied in %d different loops" % len(dloops))
@@ -1081,8 +1099,46 @@ def filter_copy(P, rep, rule="FILTER"):
         problems.append("first-visit block (dst_vid == invalid: new id = points.size()/3, map update, point and data copy) not recognised")
     # (e) keep rule
     keep = [n for n in F.walk() if n.get("k") == "IfStmt" and any(x.get("k") == "ContinueStmt" for x in F.walk(n["c"][1]))]
-    if len(keep) != 1 or R(keep[0]["c"][0]) not in ("((highest_tag<0)||(include_tag[highest_tag]==false))", "((highest_tag<0)||!include_tag[highest_tag])"):
+    if len(keep) != 1:
         problems.append("cell skip rule is %s" % (R(keep[0]["c"][0]) if keep else "missing"))
+    else:
+        # the condition as a boolean function of A = (highest_tag < 0) and B = include_tag[highest_tag]; named bools are expanded
+        from .guard import expand_cond
+
+        def bval(e, A, B):
+            e = sc(e)
+            k_ = e.get("k")
+            if k_ == "UnaryOperator" and e.get("op") == "!":
+                v = bval(e["c"][0], A, B)
+                return None if v is None else (not v)
+            if k_ == "BinaryOperator" and e.get("op") in ("||", "&&"):
+                l, r = bval(e["c"][0], A, B), bval(e["c"][1], A, B)
+                if l is None or r is None:
+                    return None
+                return (l or r) if e["op"] == "||" else (l and r)
+            t_ = R(e).strip("()")
+            if t_ in ("highest_tag<0", "0>highest_tag"):
+                return A
+            if t_ in ("highest_tag>=0", "0<=highest_tag"):
+                return not A
+            if t_ == "include_tag[highest_tag]":
+                return B
+            if k_ == "BinaryOperator" and e.get("op") in ("==", "!="):
+                l0, r0 = sc(e["c"][0]), sc(e["c"][1])
+                lit = r0 if r0.get("k") == "CXXBoolLiteralExpr" else (l0 if l0.get("k") == "CXXBoolLiteralExpr" else None)
+                oth = l0 if lit is r0 else r0
+                if lit is not None:
+                    v = bval(oth, A, B)
+                    if v is None:
+                        return None
+                    return (v == bool(lit.get("v"))) if e["op"] == "==" else (v != bool(lit.get("v")))
+            return None
+        cexp = expand_cond(P, F, keep[0]["c"][0])
+        table = [(A, B, bval(cexp, A, B)) for A in (True, False) for B in (True, False)]
+        if any(v is None for _, _, v in table):
+            rep.unknown(rule, "filter_vtu_mesh: cell skip condition `%s` is not a boolean function of (highest_tag < 0) and include_tag[highest_tag]" % R(keep[0]["c"][0])[:80])
+        elif any(v != (A or not B) for A, B, v in table):
+            problems.append("cell skip rule is %s" % R(cexp))
     ht = [n for n in F.walk() if n.get("k") == "BinaryOperator" and n.get("op") == "=" and R(n["c"][0]) == "highest_tag"]
     if len(ht) != 1 or R(ht[0]["c"][1]) not in ("std::max(highest_tag,input_data[tag_index][src_vid])", "std::max(input_data[tag_index][src_vid],highest_tag)"):
         problems.append("highest_tag update is %s" % (R(ht[0]["c"][1]) if ht else "missing"))
@@ -2029,7 +2085,8 @@ def sphere_layers(P, rep, rule="GRID.sphere-layers"):
         # the layer loop: the outermost enclosing for loop whose body assigns the radius
         layer = None
         for a in F.ancestors(call):
-            if a.get("k") == "ForStmt" and any(y.get("k") == "BinaryOperator" and y.get("op") == "=" and astq.is_ref_to(sc(y["c"][0]), rad["r"]) for y in F.walk(a["c"][3])):
+            if a.get("k") == "ForStmt" and any((y.get("k") == "BinaryOperator" and y.get("op") == "=" and astq.is_ref_to(sc(y["c"][0]), rad["r"]))
+                                               or (y.get("k") == "VarDecl" and y.get("r") == rad["r"]) for y in F.walk(a["c"][3])):
                 layer = a
         if layer is None:
             continue
@@ -2049,6 +2106,23 @@ def sphere_layers(P, rep, rule="GRID.sphere-layers"):
                     if astq.is_ref_to(sc(kids[-2]), b) and sc(kids[-1]).get("k") == "DeclRefExpr":
                         src = sc(kids[-1])["r"]
             if src is None:
+                # element-wise: X[j] = S[k] right before the projection of X[j], in the same block
+                blk_c = astq.enclosing(F, call, ("CompoundStmt",))
+                idx_txt = None
+                for a_ in args[1:]:
+                    sb_ = astq.subscript(sc(a_))
+                    if sb_ and astq.is_ref_to(sc(sb_[0]), b):
+                        idx_txt = norm.render(P, sb_[1], nocast=True)
+                for s_ in (blk_c["c"] if blk_c is not None else []):
+                    if any(y is call for y in F.walk(s_)):
+                        break
+                    s0 = sc(s_)
+                    if s0 is not None and s0.get("k") in ("BinaryOperator", "CXXOperatorCallExpr") and s0.get("op") == "=":
+                        kids = [z for z in s0["c"] if z is not None]
+                        l_, r_ = astq.subscript(sc(kids[-2])), astq.subscript(sc(kids[-1]))
+                        if l_ and r_ and astq.is_ref_to(sc(l_[0]), b) and norm.render(P, l_[1], nocast=True) == idx_txt and sc(r_[0]).get("k") == "DeclRefExpr":
+                            src = sc(r_[0])["r"]
+            if src is None:
                 problems.append("%s is not copied from the unit shell inside the layer iteration" % P.d(b).get("n"))
                 continue
             written = False
@@ -2067,14 +2141,15 @@ def sphere_layers(P, rep, rule="GRID.sphere-layers"):
                 problems.append("the source %s of %s is modified inside the layer loop" % (P.d(src).get("n"), P.d(b).get("n")))
         # radius of layer i
         lv = layer["c"][0]["c"][0].get("r") if layer["c"][0] is not None and layer["c"][0].get("k") == "DeclStmt" else None
-        rasg = [y for y in F.walk(body) if y.get("k") == "BinaryOperator" and y.get("op") == "=" and astq.is_ref_to(sc(y["c"][0]), rad["r"])]
+        rasg = [y["c"][1] for y in F.walk(body) if y.get("k") == "BinaryOperator" and y.get("op") == "=" and astq.is_ref_to(sc(y["c"][0]), rad["r"])]
+        rasg += [y["c"][0] for y in F.walk(body) if y.get("k") == "VarDecl" and y.get("r") == rad["r"] and y.get("c")]
         ok_r = False
         detail = ""
         if len(rasg) == 1 and lv is not None:
             i_ = sp.Symbol("i_layer", nonnegative=True)
             try:
-                symb = norm.Sym(P, F, inline_locals=False, env={lv: i_})
-                E = sp.simplify(symb(rasg[0]["c"][1]))
+                symb = norm.Sym(P, F, inline_locals=False, inline_consts=True, env={lv: i_})
+                E = sp.simplify(symb(rasg[0]))
                 others = sorted(E.free_symbols - {i_}, key=str)
                 # inner at i = 0; outer at the loop's last index (bound - 1 for `i < n + 1`)
                 cond = sc(layer["c"][1])
